@@ -43,6 +43,12 @@ class ShadowClock(Monitor):
 
     def on_time_op(self, name, left, right, result):
         self.count += 1
+        if name == "__add__":
+            # normalisation is cheap to test: every sum is looked at, the exact-rational oracles are sampled
+            r = result.remainder
+            if not (0.0 <= r < 1.0) and not math.isinf(r) and isinstance(right, float) and right >= 0.0 \
+                    and not math.isinf(left.quotient) and 0.0 <= left.remainder < 1.0:
+                self._bad("sum_not_normalised", {"left": repr(left), "dt": right, "result": repr(result)})
         if self.count % self.every:
             return
         self.checked += 1
